@@ -32,14 +32,7 @@ def contexts(rng, machine, k):
                 else:
                     n = rng.randrange(0, cap + 1)
                 content = bytes(rng.choice([0x61, 0x30, 0x80, 0xff, 0x0a]) for _ in range(n))
-                buf = bytearray(o.size)
-                spec = next(x for x in machine.spec if x.name == o.name)
-                d = spec.default_value
-                if d is not None:
-                    db = bytes(d) if isinstance(d, (bytes, bytearray)) else bytes(min(ord(c), 255) for c in d)
-                    buf[:len(db)] = db
-                    if o.typ == "str" and len(db) < o.size:
-                        buf[len(db)] = 0
+                buf = bytearray(o.size)       # SETSTR zero-fills the buffer before writing the content: reads beyond the length see zeros
                 buf[:n] = content
                 if o.typ == "str" and n < o.size:
                     buf[n] = 0
